@@ -51,16 +51,17 @@ def run(tier, seed):
                 check("root-one", p + u, "(%s * %s).root(1) is (%s * %s)" % (p, u, p, u))
     # converting INTO a prefixed unit is converting into the bare unit and dividing by the prefix value, whatever the planner does with the unit
     # (1e-3: the prefixed and the bare request may take different declared routes, which agree to 1e-5 only; a lost prefix is a factor >= 2)
-    targets = [t for t in ("Liter", "Calorie", "Hectare", "Horsepower", "Acre", "Gallon", "PSI", "Newton", "Meter", "Joule") if t in ns]
+    targets = [t for t in ("Liter", "Calorie", "Hectare", "Horsepower", "Acre", "Gallon", "PSI", "Newton", "Meter", "Joule", "Celsius", "Kelvin", "Fahrenheit") if t in ns]
     sources = {"Liter": "Gallon", "Calorie": "Joule", "Hectare": "Acre", "Horsepower": "Watt", "Acre": "Hectare", "Gallon": "Liter", "PSI": "Pascal", "Newton": "PoundForce",
-               "Meter": "Foot", "Joule": "Calorie"}
+               "Meter": "Foot", "Joule": "Calorie", "Celsius": "Kelvin", "Kelvin": "Fahrenheit", "Fahrenheit": "Rankine"}
     for p in (prefixes if tier != "quick" else rng.sample(prefixes, 6)):
         for t in targets:
             srcu = sources[t]
             if srcu not in ns:
                 continue
             check("prefixed-target", p + t, "abs(float((3 * %s).in_unit(%s * %s).magnitude) * float(%s.quantify()) / float((3 * %s).in_unit(%s).magnitude) - 1) < 1e-3" % (srcu, p, t, p, srcu, t))
-            check("prefixed-source", p + t, "abs(float((3 * (%s * %s)).in_unit(%s).magnitude) / float(%s.quantify()) / float((3 * %s).in_unit(%s).magnitude) - 1) < 1e-3" % (p, srcu, t, p, srcu, t))
+            # m * (p*u) is (m * value(p)) * u BEFORE anything else happens to it (offsets of temperature scales included)
+            check("prefixed-source", p + t, "abs(float((3 * (%s * %s)).in_unit(%s).magnitude) - float(((3 * %s.quantify()) * %s).in_unit(%s).magnitude)) <= 1e-3 * max(1.0, abs(float(((3 * %s.quantify()) * %s).in_unit(%s).magnitude)))" % (p, srcu, t, p, srcu, t, p, srcu, t))
     for p in []:
         for u in []:
             pass
